@@ -20,7 +20,7 @@ class C04(E1Prop):
 
     def make_history(self, rng):
         from ..batchdb import gen
-        return gen.history(rng, special=0.25, weights={'late-unschedule': 3.0, 'orphan': 3.0, 'unschedule-orphan': 5.0, 'late-schedule': 4.0, 'jp-timeout': 4.0}, knobs={'jp_jobs': 0.3})
+        return gen.history(rng, special=0.25, weights={'late-unschedule': 3.0, 'orphan': 3.0, 'unschedule-orphan': 5.0, 'late-schedule': 4.0, 'jp-timeout': 4.0, 'late-creating': 8.0, 'deactivate-at-end-time': 5.0}, knobs={'jp_jobs': 0.3})
 
 
 PROP = C04()
